@@ -102,3 +102,51 @@ def hint_only_reserves(ctx, fx, files, rule="R-HINT", only=None):
                                       % (fid.rsplit("::", 1)[-1], c["ln"], bad[0], bad[1]), fn.file, bad[1])
     ctx.instance(rule + ".sites", n)
     return n
+
+
+# ------------------------------------------------------------------ R-CLAMPLOOP
+def clamped_count(ctx, fx, files, rule="R-CLAMPLOOP", fn_rx=r"deserialize|read_vec|read_map|read_seq|from_reader", only=None):
+    """a deserialiser may clamp the declared element count to size its *reservation*; the number of elements it reads is
+    the declared count itself. In functions matching fn_rx, a value that went through `min(_, CONST)` is never the end of
+    the `start..end` range of a loop that decodes elements: the surplus elements would stay in the stream and the
+    container comes back short, with Ok."""
+    from rules.prune import natural_loops
+    frx = re.compile(fn_rx)
+    n = 0
+    for f in files:
+        for fid in fx.fn_ids(f):
+            if "::tests::" in fid or not frx.search(fid.rsplit("::", 1)[-1]) or (only and not only(fid)):
+                continue
+            for k in range(fx.count(fid)):
+                fn = Fn(fx.raw(fid, k))
+                loops = None
+                for b, c in fn.calls():
+                    if not (re.search(r"(Ord|cmp)::min$", c["f"]) and len(c["a"]) == 2 and any(op_const(a) is not None for a in c["a"])):
+                        continue
+                    n += 1
+                    ctx.analysed_fns.add(fid)
+                    fw = fn.forward_locals([c["d"][0]]) | {c["d"][0]}
+                    bad = None
+                    for (rb, ri), st in fn.iter_locs():
+                        if st[0] == "a" and st[2][0] == "agg" and isinstance(st[2][1], str) and "ops::Range" in st[2][1] \
+                                and len(st[2][2]) == 2 and op_local(st[2][2][1]) in fw:
+                            if loops is None:
+                                loops = natural_loops(fn)
+                            # the range feeds a loop whose body decodes elements
+                            rfw = fn.forward_locals([st[1][0]]) | {st[1][0]}
+                            for h, body in loops:
+                                drives = any(bb in body and cc["f"].rsplit("::", 1)[-1] == "next" and cc["a"] and
+                                             (op_local(cc["a"][0]) in rfw or any(x in rfw for x in fn.points_to(op_local(cc["a"][0]))))
+                                             for bb, cc in fn.calls() if op_local(cc["a"][0] if cc["a"] else None) is not None)
+                                decodes = any(bb in body and re.search(r"deserialize|::read_\w+$", cc["f"]) for bb, cc in fn.calls())
+                                if drives and decodes:
+                                    bad = st[3]
+                    ok = bad is None
+                    ctx.obligation(rule, fid, "clamped count only sizes the reservation", ok, sample={"fn": fid, "min_line": c["ln"]})
+                    if not ok:
+                        ctx.violation(rule, fid, "element loop bounded by a clamped count",
+                                      "%s clamps the declared count with min(_, const) (line %d) and uses the clamped value as the bound of the "
+                                      "loop that decodes the elements (line %d): a longer container is cut short and the rest of the stream is "
+                                      "misparsed" % (fid.rsplit("::", 1)[-1], c["ln"], bad), fn.file, bad)
+    ctx.instance(rule + ".clamps", n)
+    return n
